@@ -16,6 +16,9 @@ pub const fn tag_progress(t: u8) -> u8 {
     16 + t
 }
 /// Model tag of the (private, unobservable) change-of memory for lens `ValueOf<T>`.
+/// presence of a `LogConfig` in a scope (value 1)
+pub const TAG_LOGCFG: u8 = 14;
+
 pub const fn tag_prev(t: u8) -> u8 {
     32 + t
 }
@@ -86,6 +89,9 @@ pub enum Op {
     /// a fresh best-individual memory in the *current* scope (what a nested heuristic's
     /// initialisation does), holding nothing or the given value
     SetBestHere(Option<f64>),
+    /// `configure_log(|_| if fail { Err } else { Ok })`: creates a default `LogConfig` in the
+    /// current scope only if none is visible; a failing closure changes nothing else
+    ConfigureLog { fail: bool },
     /// `set_value::<T>(v)` while a shared (`excl = false`) or exclusive guard on the innermost
     /// `T` is alive: must be refused (`None`) and must not touch any other scope
     SetWhileBorrowed(u8, bool, u32),
@@ -302,6 +308,12 @@ impl Model {
                 }
                 Ret::Unit
             }
+            Op::ConfigureLog { fail } => {
+                if self.find(TAG_LOGCFG).is_none() {
+                    self.top().insert(TAG_LOGCFG, 1);
+                }
+                Ret::Bool(!*fail)
+            }
             Op::SetBestHere(v) => {
                 let bits = v.map(|x| x.to_bits()).unwrap_or(NONE);
                 self.top().insert(TAG_BEST, bits);
@@ -374,6 +386,9 @@ pub fn dump_top(reg: &StateRegistry<'static>) -> BTreeMap<u8, u64> {
         if let Ok(v) = reg.try_get_value::<Iterations>() {
             m.insert(TAG_IT, v as u64);
         }
+    }
+    if reg.contains_at_top::<mahf::logging::LogConfig<EP>>() {
+        m.insert(TAG_LOGCFG, 1);
     }
     if reg.contains_at_top::<BestIndividual<EP>>() {
         if let Ok(b) = reg.try_borrow::<BestIndividual<EP>>() {
@@ -593,6 +608,11 @@ pub fn apply_real(op: &Op, st: &mut St) -> Ret {
             **st.borrow_mut::<BestIndividual<EP>>() = ind;
             Ret::Unit
         }
+        Op::ConfigureLog { fail } => {
+            let fail = *fail;
+            let r = st.configure_log(|_config| if fail { Err(eyre::eyre!("injected: log configuration failed")) } else { Ok(()) });
+            Ret::Bool(r.is_ok())
+        }
         Op::SetBestHere(v) => {
             let ind = v.map(|x| Individual::<EP>::new(Vec::new(), SingleObjective::try_from(x).expect("harness: valid objective")));
             st.insert(BestIndividual::<EP>::new());
@@ -698,6 +718,7 @@ impl<'a> OpGen<'a> {
                     let write = if self.g.chance(0.6) { Some(self.val()) } else { None };
                     Op::Holding { t, write, ops, fail: self.g.chance(0.4) }
                 }
+                98 if self.g.chance(0.5) => Op::ConfigureLog { fail: self.g.chance(0.5) },
                 98 => Op::Require(t),
                 99 if self.g.chance(0.5) => {
                     // the 2- and 3-tuples over the first four probe types
